@@ -252,3 +252,37 @@ def Heap.ofCells (cs : List (Nat × Cell)) : Heap := fun a =>
   | none => ⟨none, none, none⟩
 
 end Mathy
+
+namespace Mathy
+
+/-! ## Look-ups built on the visits (mathy_core/expressions.py: `find_id`, `find_type`, `to_list`)
+
+Here `id` of a `BT.node` plays the role of the node's `id` *string*, which need not be unique
+(`clone()` copies it); the position in the in-order listing identifies the node object. -/
+
+/-- last callback of a stopped traversal -/
+def lastOf {α} : List α → Option α
+  | [] => none
+  | [x] => some x
+  | _ :: xs => lastOf xs
+
+/-- `self.find_id(i)`: `visit_inorder` with a visitor that records the node and returns STOP when
+`node.id == i`; the result is the recorded node (with the depth it was seen at), or `None`. -/
+def BT.findId (i : Nat) (t : BT) : Option (Nat × Nat) :=
+  let (trace, stopped) := t.visitIn (fun j _ => j == i) 0
+  if stopped then lastOf trace else none
+
+/-- in-order position of the node `find_id` returns (what the correspondence check compares) -/
+def BT.findIdIndex (i : Nat) (t : BT) : Option Nat :=
+  let (trace, stopped) := t.visitIn (fun j _ => j == i) 0
+  if stopped then some (trace.length - 1) else none
+
+/-- `self.find_type(cls)`: an in-order visit that never stops and collects the nodes satisfying
+the class test `p`. -/
+def BT.findAll (p : Nat → Bool) (t : BT) : List Nat :=
+  ((t.visitIn (fun _ _ => false) 0).1.filter (fun x => p x.1)).map (·.1)
+
+/-- `self.to_list("inorder")` -/
+def BT.toList (t : BT) : List Nat := ((t.visitIn (fun _ _ => false) 0).1).map (·.1)
+
+end Mathy
